@@ -1770,6 +1770,9 @@ Proof.
       exfalso. apply Hnd. eapply Ho; eauto.
 Qed.
 
+Lemma tw_app_self_nil : forall (A : Type) (l x : list A), l = l ++ x -> x = [].
+Proof. intros A l x H. rewrite <- (app_nil_r l) in H at 1. apply app_inv_head in H. auto. Qed.
+
 Lemma tw_cstep_live_facts : forall cap s s', tw_fifo cap s -> tw_cstep s = Some s' ->
   tw_opened s' = tw_opened s /\
   (tw_cpc s' = TwCWaitCond -> tw_flag s' = false) /\
@@ -1780,30 +1783,34 @@ Lemma tw_cstep_live_facts : forall cap s s', tw_fifo cap s -> tw_cstep s = Some 
 Proof.
   intros cap s s' HF HS. pose proof HS as HS0. unfold tw_cstep in HS.
   destruct (tw_cpc s) eqn:Ecpc; tw_ccases HS.
-  all: try solve [injection HS as <-; unfold tw_cidle, tw_unprocessed, tw_cdone; tw_proj; rewrite ?Ecpc;
-                  repeat split; intros; try discriminate; try congruence; auto;
-                  try (exfalso; eapply app_cons_not_nil; symmetry;
-                       match goal with H : ?l = ?l ++ _ |- _ => rewrite <- (app_nil_r l) in H at 1; apply app_inv_head in H; symmetry; exact H end)].
+  all: try solve [injection HS as <-;
+    split; [tw_proj; reflexivity|];
+    split; [tw_proj; intros; try discriminate; try congruence; auto|];
+    split; [tw_proj; intros; try discriminate; split; try reflexivity; congruence|];
+    split; [unfold tw_cidle; tw_proj; intro Hid; try discriminate Hid; right;
+            unfold tw_unprocessed, tw_cdone; tw_proj; rewrite ?Ecpc, ?Eh; repeat split; try reflexivity; congruence|];
+    intros m Hm; tw_proj; apply tw_app_self_nil in Hm; discriminate].
   - (* CLockM *)
     match type of HS with match ?X with _ => _ end = _ => destruct X as [s3|f] eqn:EX end; injection HS as <-.
     + pose proof EX as EX0. apply tw_cstep_lockM in EX; [|reflexivity]. destruct EX as (qa & ra & qb & rb & tr & _ & _ & Es3).
-      assert (Hc : tw_cpc (tw_set_cpc s3 TwCUnlockM) = TwCUnlockM) by reflexivity.
       split; [rewrite Es3; reflexivity|]. split; [discriminate|]. split; [discriminate|]. split.
       * intro Hid. left. split; [reflexivity|]. unfold tw_cidle in Hid. tw_proj.
         destruct (tw_held s3) eqn:Eh3; [discriminate|].
         assert (Hab : abs (tw_q (tw_set_cpc s3 TwCUnlockM)) = []).
         { eapply (tw_lockM_empty cap s); eauto. }
         unfold tw_unprocessed, tw_cdone. tw_proj. rewrite Eh3. exact Hab.
-      * intros m Hm. rewrite Es3 in Hm. tw_proj. exfalso.
-        rewrite <- (app_nil_r (tw_applied s)) in Hm at 1. apply app_inv_head in Hm. discriminate.
-    + tw_proj. unfold tw_cidle, tw_unprocessed, tw_cdone. tw_proj. rewrite Ecpc.
-      repeat split; intros; try discriminate; auto. exfalso.
-      rewrite <- (app_nil_r (tw_applied s)) in H at 1. apply app_inv_head in H. discriminate.
+      * intros m Hm. rewrite Es3 in Hm. tw_proj. apply tw_app_self_nil in Hm. discriminate.
+    + split; [reflexivity|]. split; [tw_proj; rewrite Ecpc; discriminate|]. split; [tw_proj; rewrite Ecpc; discriminate|].
+      split; [unfold tw_cidle; tw_proj; rewrite Ecpc; discriminate|].
+      intros m Hm. tw_proj. apply tw_app_self_nil in Hm. discriminate.
   - (* CLockP with a message *)
-    injection HS as <-. unfold tw_dispatch, tw_cidle. destruct (tw_kind_of rm =? 0) eqn:Ek; [|destruct (tw_kind_of rm =? 1) eqn:Ek1]; tw_proj;
-      repeat split; intros; try discriminate; auto.
-    all: apply app_inv_head in H; injection H as <-; apply N.eqb_neq in Ek; contradiction.
+    injection HS as <-. unfold tw_dispatch, tw_cidle.
+    destruct (tw_kind_of rm =? 0) eqn:Ek; [|destruct (tw_kind_of rm =? 1) eqn:Ek1]; tw_proj;
+      (split; [reflexivity|]; split; [discriminate|]; split; [discriminate|]; split; [discriminate|]);
+      intros m Hm Hk; try reflexivity;
+      apply app_inv_head in Hm; injection Hm as <-; apply N.eqb_neq in Ek; contradiction.
   - (* CLockP fault *)
-    injection HS as <-. unfold tw_cidle. tw_proj. rewrite Ecpc. repeat split; intros; try discriminate; auto.
-    exfalso. rewrite <- (app_nil_r (tw_applied s)) in H at 1. apply app_inv_head in H. discriminate.
+    injection HS as <-. split; [reflexivity|]. split; [tw_proj; rewrite Ecpc; discriminate|]. split; [tw_proj; rewrite Ecpc; discriminate|].
+    split; [unfold tw_cidle; tw_proj; rewrite Ecpc; discriminate|].
+    intros m Hm. tw_proj. apply tw_app_self_nil in Hm. discriminate.
 Qed.
